@@ -151,13 +151,17 @@ def load(R):
                # from the property: a rule reports a change whenever what its symbol resolves to would give another rule hash from scratch -- for a memento
                # function: the symbol no longer resolves to a memento function, OR it resolves to another one (rebinding dep = g2)
                ensures=["result == (not resolves(self.resolver) or not isinstance(call_result(self.resolver), MementoFunctionType) or not same(call_result(self.resolver), self.memento_fn))"])
-    R.entity("GlobalVariableHashRule", ("code_hash", "GlobalVariableHashRule"), dict(var=TObj(), resolver=TObj("nn:callable"), last_value=TObj()))
-    R.contract(C + "GlobalVariableHashRule._serialize_value", assumed=True, types={"var": TObj()}, returns=TObj(), ensures=["same(result, serialize(var))"])
+    R.entity("GlobalVariableHashRule", ("code_hash", "GlobalVariableHashRule"), dict(var=TObj(), resolver=TObj("nn:callable"), last_value=TObj("bytes")))
+    R.contract(C + "GlobalVariableHashRule._serialize_value", assumed=True, types={"var": TObj()}, returns=TObj("bytes"), ensures=["same(result, serialize(var))"],
+               notes="the JSON bytes of the value, or None for a value Memento cannot hash")
     R.contract(C + "GlobalVariableHashRule.did_change", prop="C13", types={"self": TEnt("GlobalVariableHashRule")}, returns=TBool,
                ensures=["result == (self.last_value is not None and (not resolves(self.resolver) or not py_eq(self.last_value, serialize(call_result(self.resolver)))))"])
+    # `a != b` on values the rule does not control (the symbol may have been rebound to an array, a frame, anything) runs their __eq__ and may raise or
+    # give a non-bool: a rule decides "is it still the function I hashed" by identity, and never raises out of version()
+    R.eq_may_raise = True
     R.entity("NonMementoFunctionHashRule", ("code_hash", "NonMementoFunctionHashRule"), dict(resolver=TObj("nn:callable"), src_fn=TObj()))
     R.contract(C + "NonMementoFunctionHashRule.did_change", prop="C13", types={"self": TEnt("NonMementoFunctionHashRule")}, returns=TBool,
-               ensures=["result == (not resolves(self.resolver) or not py_eq(self.src_fn, call_result(self.resolver)))"])
+               ensures=["result == (not resolves(self.resolver) or not same(self.src_fn, call_result(self.resolver)))"])
 
     # ---------------------------------------------------------------- registration step of MementoFunction.__init__
     R.attr("__module__", TStr)
